@@ -577,6 +577,9 @@ func newFileConfig(opts *CmdEnv, cData, rulesData []configData, currentVersion .
 	if err != nil {
 		return nil, err
 	}
+	// Init rewrites a condition; do it now, while nobody else can see the rules,
+	// instead of lazily from the first request that needs them.
+	rulesconf.initConditions()
 
 	// Set workerCount on SampleCache once during initialization
 	mainconf.SampleCache.WorkerCount = uint(mainconf.Collection.GetWorkerCount())
